@@ -66,3 +66,16 @@ Example C09_example :
   let st := run 3 (execute_tsm 3 false 2 63 src tgt) st0 in
   forallb (fun p => forallb (fun q => Nat.eqb (reached st p q) 1%nat) (zseq 10)) (zseq 9) = true.
 Proof. vm_compute. reflexivity. Qed.
+
+(* the OpenMP target/source executor under every legal schedule (task model Sched/OmpTsmDefs.v): different block sizes and
+   grouping modes on the two sides, every target gets every source once, nothing outside *)
+From Tbfmm Require Import Sched.TaskDefs Sched.OmpTsmDefs Sched.OmpTsmProofs.
+Theorem C09_omp_tsm_exactly_once : forall d H B mode s src tgt idxs idxt sigma, (0 < d)%nat -> 1 <= H ->
+  tree_ok (parent d) H B mode src -> tree_ok (parent d) H B mode tgt -> particles_ok idxs src -> particles_ok idxt tgt ->
+  Forall (fun i => 0 <= i < 2 ^ ((H - 1) * dz d)) idxs -> Forall (fun i => 0 <= i < 2 ^ ((H - 1) * dz d)) idxt ->
+  idxs <> [] -> idxt <> [] -> s <= 2 ->
+  legal (omp_tsm_tasks d false s 63 src tgt) sigma ->
+  forall p q, 0 <= p < zlen idxt -> 0 <= q < zlen idxs ->
+    reached (run_schedule (H - 1) (omp_tsm_tasks d false s 63 src tgt) sigma st0) p q = 1%nat.
+Proof. exact omp_tsm_exactly_once. Qed.
+Print Assumptions C09_omp_tsm_exactly_once.
